@@ -11,7 +11,7 @@ CONSTANTS
   BigFill = {255, 97, 90}
   PairAlpha = {0, 64, 65, 90, 91, 96, 97, 122, 123, 255}
   ZAlpha = {65}
-  Modes = {"pair", "mimic", "triple", "neigh", "cons"}
+  Modes = {"pair", "mimic", "triple", "neigh", "neigh2", "cons"}
 INVARIANT Total
 INVARIANT Antisymmetric
 INVARIANT EqualIffFold
